@@ -7,6 +7,8 @@ import EnvVerif.Model.Recipient
 import EnvVerif.Model.Conc
 import EnvVerif.Model.Sha256
 import EnvVerif.Model.Ur
+import EnvVerif.Model.Collections
+import EnvVerif.Model.Variants
 namespace EnvVerif
 open Env
 
@@ -155,6 +157,18 @@ def showList (es : List Env) : String := " ".intercalate (es.map fun e => dshort
 def optHex (s : String) : Option (Option Bytes) :=
   if s == "-" then some Option.none else (bytesOfHex s).map some
 
+def cborOfHex (hx : String) : Option Cbor := (bytesOfHex hx).bind Cbor.dec?
+
+/-- comma-separated hex items (empty items skipped) -/
+def cborItems (s : String) : Option (List Cbor) :=
+  ((s.splitOn ",").filter (· != "")).mapM cborOfHex
+
+def cborPairs (s : String) : Option (List (Cbor × Cbor)) :=
+  ((s.splitOn ",").filter (· != "")).mapM fun it =>
+    match it.splitOn "=" with
+    | [k, v] => do let k ← cborOfHex k; let v ← cborOfHex v; pure (k, v)
+    | _ => Option.none
+
 def parseIdent (s : String) : Option Ident :=
   match s.splitOn ":" with
   | ["k", n] => n.toNat?.map Ident.known
@@ -261,6 +275,10 @@ def evalAssign (facts : List String) (r : Regs) (args : List String) : Option Va
   | ["sskr_join", es] => do
     let es ← envs r es
     pure (.ofRes (sskrJoin H AE (tableSskr facts) es))
+  | ["set_leaf", items] => (cborItems items).map fun xs => .env (newSetLeaf H xs)
+  | ["dset_leaf", items] => (cborItems items).map fun xs => .env (newSetLeaf H xs)
+  | ["map_leaf", items] => (cborPairs items).map fun kvs => .env (newMapLeaf H kvs)
+  | ["dmap_leaf", items] => (cborPairs items).map fun kvs => .env (newMapLeaf H kvs)
   | ["leaf", hx] =>
     match bytesOfHex hx with
     | some b => (match Cbor.dec b with
@@ -300,6 +318,20 @@ def evalAssign (facts : List String) (r : Regs) (args : List String) : Option Va
     let ts ← envs r ts
     let T := ts.map Env.digest
     pure (.ofRes (elideSet H AE ZZ (memD T) rev act e))
+  | ["elide_array", e, mode, act, ts] => do
+    let e ← r.env e
+    let rev ← (if mode == "rev" then some true else if mode == "rem" then some false else Option.none)
+    let act ← parseAction act
+    let ts ← envs r ts
+    pure (.ofRes (elideArray H AE ZZ ts rev act e))
+  | ["elide_target", e, mode, act, ts] => do
+    let e ← r.env e
+    let rev ← (if mode == "rev" then some true else if mode == "rem" then some false else Option.none)
+    let act ← parseAction act
+    let ts ← envs r ts
+    match ts with
+    | t :: _ => pure (.ofRes (elideTarget H AE ZZ t rev act e))
+    | [] => Option.none
   | ["unelide", ph, e] => do
     let ph ← r.env ph; let e ← r.env e
     pure (.ofRes (unelide ph e))
@@ -467,6 +499,37 @@ def evalObs (facts : List String) (r : Regs) (args : List String) : Option Strin
   | ["awp", e, p] => do
     let e ← r.env e; let p ← r.env p
     pure ("[" ++ showList (assertionsWithPredicate e p) ++ "]")
+  | ["eofp", e, p, ty] => do
+    -- `extract_object_for_predicate::<T>` = `object_for_predicate` then `extract_subject::<T>`
+    let e ← r.env e; let p ← r.env p
+    pure (match objectForPredicate e p with
+      | .ok o => extractSubject ty o
+      | .err _ => "err"
+      | .panic x => "panic " ++ x)
+  | ["eoofp", e, p, ty] => do
+    let e ← r.env e; let p ← r.env p
+    pure (match optionalObjectForPredicate e p with
+      | .ok (some o) => extractSubject ty o
+      | .ok Option.none => "none"
+      | .err _ => "err"
+      | .panic x => "panic " ++ x)
+  | ["eosfp", e, p, ty] => do
+    -- all or nothing: one object that is not a `T` makes the whole lookup an error
+    let e ← r.env e; let p ← r.env p
+    pure (match objectsForPredicate e p with
+      | .ok os =>
+        let rs := os.map (extractSubject ty)
+        if rs.any (fun s => s == "err") then "err" else "[" ++ " ".intercalate rs ++ "]"
+      | .err _ => "err"
+      | .panic x => "panic " ++ x)
+  | ["eofpd", e, p, ty] => do
+    -- the default only when nothing matches
+    let e ← r.env e; let p ← r.env p
+    pure (match optionalObjectForPredicate e p with
+      | .ok (some o) => extractSubject ty o
+      | .ok Option.none => if ty == "bool" then "ok false" else "ok default"   -- (the harness passes `false` as the bool default)
+      | .err _ => "err"
+      | .panic x => "panic " ++ x)
   | ["ofp", e, p] => do
     let e ← r.env e; let p ← r.env p
     pure (Val.show (.ofRes (objectForPredicate e p)))
